@@ -312,6 +312,10 @@ pub enum Oracle {
   /// C14: like Functional, but a deviation that is exactly an operator's known
   /// functional defect (C03's business) is not an independence violation
   Independence,
+  /// C03, `a.switch_on_next(b)` (whose full function no statement fixes): once an item of `b` has been
+  /// delivered nothing of `a` is - the operator has *switched* -, every delivered item is one an input
+  /// emitted, and the items of either input keep their order
+  Switch,
 }
 
 #[derive(Default)]
@@ -482,6 +486,33 @@ fn eval_case_x(prop: &str, case: &Case, oracles: &[Oracle], st: &mut Stats, dept
           }
         }
       }
+      Oracle::Switch => {
+        // origin of a value in these worlds: first input 1..8, second input 11.., the fed value 9 belongs to the input it is fed to
+        let fed_src = case.acts.iter().find_map(|a| if let Act::Feed { src, .. } = a { Some(*src) } else { None }).unwrap_or(0);
+        let origin = |e: &Ev| -> Option<usize> {
+          match e {
+            Ev::N(D::I(9)) => Some(fed_src),
+            Ev::N(D::I(k)) => Some(if *k >= 10 { 1 } else { 0 }),
+            _ => None,
+          }
+        };
+        let out = real.all_of(rec_id(0));
+        let mut switched = false;
+        for e in out.iter() {
+          match origin(e) {
+            Some(1) => switched = true,
+            Some(0) if switched => {
+              st.add_finding(
+                format!("{}/item-of-the-first-input-after-the-switch", locus(p)),
+                format!("{} of the first input delivered after an item of the second: {} | real: {}", e.show(), show_evs(&out), real.show()),
+                case.show(),
+              );
+              break;
+            }
+            _ => {}
+          }
+        }
+      }
       Oracle::Contract => {
         for rec in real.recs() {
           let evs: Vec<&RecEv> = real.events.iter().filter(|e| e.rec == rec).collect();
@@ -514,7 +545,7 @@ fn eval_case_x(prop: &str, case: &Case, oracles: &[Oracle], st: &mut Stats, dept
       }
       Oracle::Unsub => {
         for (ai, a) in case.acts.iter().enumerate() {
-          if let Act::Unsub(root) | Act::UsingDrop(root) | Act::UsingDropUnwinding(root) = a {
+          if let Act::Unsub(root) | Act::UsingDrop(root) | Act::UsingDropUnwinding(root) | Act::UnsubGuarded(root) = a {
             let base = rec_id(*root);
             if let Some(e) = real.events.iter().find(|e| e.step > ai && e.rec >= base && e.rec < base + 100) {
               st.add_finding(
@@ -548,7 +579,7 @@ fn eval_case_x(prop: &str, case: &Case, oracles: &[Oracle], st: &mut Stats, dept
         for root in 0..n_roots {
           let mut ended = false;
           for (step, a) in case.acts.iter().enumerate() {
-            if *a == Act::Unsub(root) || *a == Act::UsingDrop(root) || *a == Act::UsingDropUnwinding(root) {
+            if *a == Act::Unsub(root) || *a == Act::UsingDrop(root) || *a == Act::UsingDropUnwinding(root) || *a == Act::UnsubGuarded(root) {
               ended = true;
             }
             if real.events.iter().any(|e| e.step == step && e.rec == rec_id(root) && e.ev.is_terminal()) {
